@@ -37,9 +37,10 @@ def model_norm(r):
     return {'ok': r['ok']}
 
 def py_window(R, limit, offset):
+    """SQL LIMIT/OFFSET on a list; a negative LIMIT is SQLite's 'no limit'"""
     o = offset or 0
     d = R[o:]
-    return d if limit is None else d[:limit]
+    return d if (limit is None or limit < 0) else d[:limit]
 
 def translator_tie(ctx):
     if not ctx.driver.ok:
@@ -182,6 +183,26 @@ def method_oracle(ctx):
                 check('group_concat', sorted(gc.split('|')) if gc else [], sorted(o.s for o in R), [])
                 rnd = [o.id for o in q0.random(3)]
                 check('random', (len(rnd), set(rnd) <= set(ids), len(set(rnd))), (min(3, len(ids)), True, min(3, len(ids))), [])
+                # a filter / projection / aggregate over a LIMITED subquery must see only the window
+                l = rng.choice([1, 2, 3, 5]); o = rng.choice([None, 0, 1, 2])
+                win = py_window(R, l, o)
+                thr = rng.choice([0, 1, 2, 3])
+                try: got = sorted(x.id for x in select(x for x in q.limit(l, offset=o) if x.k >= thr))
+                except Exception as e: got = 'raised ' + type(e).__name__
+                exp = sorted(x.id for x in win if x.k >= thr)
+                ctx.case([name, 'filter-over-limited-subquery', l, o, thr], kind='oracle:filter-over-limited-subquery')
+                if got != exp and not (isinstance(got, str)):
+                    ctx.violation('a condition on a query that iterates over a limited subquery is applied BEFORE the limit (the outer WHERE is merged into the limited inner query)',
+                                  {'inner': 'q.limit(%r, offset=%r)' % (l, o), 'outer': 'select(x for x in inner if x.k >= %d)' % thr, 'R': ids, 'window': [x.id for x in win]},
+                                  observed=got, expected=exp, key='filter-over-limited-subquery')
+                # aggregates repeated after an unflushed change must see it (same query object, warm result cache)
+                before_cnt = q0.count(); before_sum = qk.without_distinct().sum()
+                extra = G(k=3, s='ab', v=None)
+                inc = 1 if pyf(extra) else 0
+                check('count-after-unflushed-insert', q0.count(), before_cnt + inc, [])
+                check('sum-after-unflushed-insert', qk.without_distinct().sum(), before_sum + 3 * inc, [])
+                extra.delete()
+                check('count-after-unflushed-delete', q0.count(), before_cnt, [])
                 # ordering only permutes the unordered result (entity queries)
                 check('order-permutes', sorted(o.id for o in q0[:]), sorted(ids), [])
             # known finding: ordering drops the inferred DISTINCT of a non-entity projection
